@@ -68,13 +68,13 @@ static void strreverse(char* begin, char* end)
 F8API size_t modp_dtoa(double value, char* str, int prec) // DD
 {
 	/* if input is larger than thres_max, revert to exponential */
-    const double thres_max = (double)(0x7FFFFFFF);
+    const double thres_max = 2147483648.0; /* 2^31 */
 
     double diff = 0.0;
     char* wstr = str;
 	int neg = 0;
-	int whole = 0;
-    double tmp = 0.0;
+	int64_t whole = 0; /* one more than INT_MAX is reachable by rounding up */
+    double tmp = 0.0, err = 0.0;
     uint32_t frac = 0;
 
     /* Hacky test for NaN
@@ -104,25 +104,30 @@ F8API size_t modp_dtoa(double value, char* str, int prec) // DD
 
     /* for very large numbers switch back to native sprintf for exponentials
        (before the conversion to int below, which is undefined for them) */
-    if (value > thres_max)
+    if (value >= thres_max)
         return sprintf(str, "%e", neg ? -value : value); // DD
 
-    whole = (int) value;
+    whole = (int64_t) value;
     tmp = (value - whole) * pow10_[prec];
     frac = (uint32_t)(tmp);
     diff = tmp - frac;
 
-    if (diff > 0.5) {
-        ++frac;
+    if (prec > 0) {
+        /* tmp is a rounded product: its rounding error decides a computed
+           .5 that is not a real tie (1.115 is a little below 1.115) */
+        err = fma(value - whole, pow10_[prec], -tmp);
+        if (diff > 0.5 || (diff == 0.5 && err > 0.0)) {
+            ++frac;
+        } else if (diff == 0.5 && err == 0.0 && ((frac == 0) || (frac & 1))) {
+            /* if halfway, round up if odd, OR
+               if last digit is 0.  That last part is strange */
+            ++frac;
+        }
         /* handle rollover, e.g.  case 0.99 with prec 1 is 1.0  */
         if (frac >= pow10_[prec]) {
             frac = 0;
             ++whole;
         }
-    } else if (diff == 0.5 && ((frac == 0) || (frac & 1))) {
-        /* if halfway, round up if odd, OR
-           if last digit is 0.  That last part is strange */
-        ++frac;
     }
 
     /* for very large numbers switch back to native sprintf for exponentials.
